@@ -100,6 +100,12 @@ CheckSource(e) ==
   Judge("C06", "SourceIsBindAddress", e.asked /\ e.src.ip = e.bind.ip /\ (e.bind.port = 0 \/ e.src.port = e.bind.port) /\ e.nreq = 1,
         <<e.path, e.src, e.nreq>>, e.bind)
 
+\* C01 / C03 for a TCP peer that ends the stream without a byte: one request, and the call fails (Transport!PeerErr, fault "closed")
+CheckRequests(e) ==
+  /\ Judge("C04", "NoPanic", ~e.panicked, e.what, "no panic")
+  /\ Judge("C01", "ExactlyOneRequest", e.nreq = 1, <<e.what, e.nreq>>, 1)
+  /\ Judge("C03", "NoReplyNoResult", e.failed, e.what, "the call fails")
+
 \* C08 at the schedule "A's transport has returned, B runs to completion, only then does A look at its bytes"
 \* (Transport!Finish(a) ... Return(a)): each call's result is the interpretation of the reply to its OWN request
 CheckGate(e) ==
@@ -133,6 +139,7 @@ Check(e) == IF e.op = "W26Intervals" THEN CheckW26(e)
             ELSE IF e.op = "Quiesce" THEN CheckQuiesce(e)
             ELSE IF e.op = "Window" THEN CheckWindow(e)
             ELSE IF e.op = "Source" THEN CheckSource(e)
+            ELSE IF e.op = "Requests" THEN CheckRequests(e)
             ELSE IF Has(e, "gate") THEN CheckGate(e)
             ELSE IF Has(e, "kept") THEN CheckKept(e)
             ELSE IF Has(e.a, "extreme")
